@@ -40,11 +40,16 @@ def run(c):
         "C01 run ... X=: the failures of a history spelled in those forms, every 8th case a 5yz/4yz failure in the first attempt whose enhanced code disagrees or is odd, with a bounce route; C01 hop .../<style>: every 4xx/5xx reply of the scripted next hop carries such an enhanced code, per target kind every style in every run); "
         "oracle on the BASIC reply codes: no recipient is offered to the next hop again after its last reply was 5yz, one whose last reply was 4yz with attempts left is tried again, every terminal failure is reported whatever status it carries; "
         "transient read faults (C01 run ... T=: before a retry - or before the first attempt after a restart - the entry's header is a directory / its meta-data is cut short / is a directory while an instance loads or dispatches it, then repaired and the server restarted; every 8th case); "
+        "envelopes that list an address twice or three times, identical spelling, most often FOLLOWED by other recipients (C01 run: every 8th case, both target kinds; everybody accepted in the first attempt, then all / the repeated one / the others fail at the body stage or Commit fails; "
+        "C01 hop: every 8th case, half of them on target.lmtp, the scripted hop answers per mailbox - RCPT 450/550, LMTP 452/554 after the final dot - and keeps books per RCPT command and per message transfer); outcomes are counted per committed TRANSACTION / per report; oracle C01/committed-after-failed-body (Commit called although every accepted recipient failed at the body stage); "
+        "per-recipient targets that file failures under addresses OUTSIDE the envelope (C01 run ... F=<attempt><x unrelated|c converted spelling|k other-case form><class>: every 8th case beside one real failure while the other recipients are delivered; 10 % of the other per-recipient cases); "
+        "the header of the queued message as a dimension (C01 run ... H=<k>: Auto-Submitted auto-generated / auto-replied / auto-notified with parameters / no / upper-case name, Precedence bulk / list / junk, List-Id, Return-Path, X-Loop, Content-Type multipart/report, X-Auto-Response-Suppress, empty header; every 8th case walks the table while somebody fails for good, 30 % of the others get a random one) - the oracle does not look at it; "
         "one fault plan per attempt (start / per-recipient / body / per-recipient body status / commit, each ok|temporary|permanent|unclassified, fault density 10-90%); "
         "the REAL queue (time wheel, spool files, DSN generator) runs each to quiescence against a scripted target; the whole call/commit/report trace is compared "
         "with the Lean model's trace; distinct = distinct scenarios",
         explanation="theorems over all recipient lists, kinds, maxTries and plan streams (C01_exactly_one_outcome) and over all next-hop scripts for the three forwarding targets "
         "(C01_hop_attempt_truthful, C01_hop_exactly_one_outcome, C01_hop_body_fault_not_acked) and over all schedules of restarts and all well-formed envelopes "
-        "(Model/QueueRestart.lean: runR_eq, C01_exactly_one_outcome_with_restarts, C01_exactly_one_outcome_with_read_faults - a restart and a read of the entry that failed transiently are transparent, no attempt panics on a nil bookkeeping map, every due report can be generated); the class of a failure is a function of the basic reply code / the WithTemporary marker on the Unwrap chain and never of the enhanced status code (Model/QueueErr.lean: C01_retry_decision_ignores_enhanced_code, C01_classify_ignores_enhanced_code, C01_permanent_reply_not_requeued, C01_recorded_status_reportable); recipients are opaque identities in the model; models tied to queue.go / remote.go / smtp_downstream.go / smtpconn.go by differential runs",
+        "(Model/QueueRestart.lean: runR_eq, C01_exactly_one_outcome_with_restarts, C01_exactly_one_outcome_with_read_faults - a restart and a read of the entry that failed transiently are transparent, no attempt panics on a nil bookkeeping map, every due report can be generated); the class of a failure is a function of the basic reply code / the WithTemporary marker on the Unwrap chain and never of the enhanced status code (Model/QueueErr.lean: C01_retry_decision_ignores_enhanced_code, C01_classify_ignores_enhanced_code, C01_permanent_reply_not_requeued, C01_recorded_status_reportable); recipients are opaque identities in the model; Model/QueueDup.lean: deliver calls Commit iff some accepted recipient has no error, for every recipient LIST (repetitions allowed) and every status map (keys outside the envelope allowed) - C01_commit_decision_iff, C01_commit_decision_ignores_foreign_keys, C01_commit_decision_dedup, C01_deliver_commits_iff; an address listed twice is classified once per attempt and the pending list of every later attempt is duplicate-free (C01_pending_list_duplicate_free, runHopD_eq, runRD_eq); the report decision takes the header as an argument and ignores it (C01_report_decision_ignores_header, C01_exactly_one_outcome_any_header); "
+        "models tied to queue.go / remote.go / smtp_downstream.go / smtpconn.go by differential runs",
         search=search,
     )
